@@ -12,6 +12,7 @@ CONSTANTS
   AllowClose = TRUE
   AllowRecon = TRUE
   RecordHist = FALSE
+  MaxHist = 0
 VIEW TraceView
 CONSTRAINT HighWater
 INVARIANTS TrInOrder TrAccounting TrDropOnlyWhenFull TrCounted TrReports Prompt EndStreams EndCounts
